@@ -70,6 +70,15 @@ Theorem C02_fragment_balanced_partial : forall fuel wd main bs, Forall Frag.in_f
   Tok.run (flat (wout s)) (Tok.Txt, []) = (Tok.Txt, []) /\ In (curfile s, flat (wout s)) (files s).
 Proof. exact Frag.C02_fragment_balanced. Qed.
 Print Assumptions C02_fragment_balanced_partial.
+(* the same with display blocks .Bd/.Ed nested to any depth (block stack and its closing at end of file included):
+   unclosed, mismatched or stray .Ed/.Em lines are reported by the model and the output still balances *)
+Require FragB.
+Theorem C02_blocks_balanced_partial : forall fuel wd main bs, Forall FragB.in_frag bs ->
+  let s := snd (compile fuel (R "xhtml") 0 wd main bs) in
+  panicked s = None ->
+  Tok.run (flat (wout s)) (Tok.Txt, []) = (Tok.Txt, []) /\ In (curfile s, flat (wout s)) (files s).
+Proof. exact FragB.C02_blocks_balanced. Qed.
+Print Assumptions C02_blocks_balanced_partial.
 (* the per-handler steps of the open-element invariant that the lifting uses, for any state (also inside lists etc.) *)
 Theorem C02_text_keeps_invariant : forall s, Inv.Inv s -> Inv.markup_ok (mtags s) -> process s = true -> asis s = false ->
   (par s = false -> verse s = false) -> Inv.Inv (Proc2.process_text s).
